@@ -166,7 +166,26 @@ var hosts = []host{
 		{"legacy_str", ELegacyStr, 101, func(t *rapid.T) any { return ptr(str(t)) }},
 		{"legacy_bin", ELegacyBin, 102, func(t *rapid.T) any { return []byte(str(t)) }},
 		{"legacy_bool", ELegacyBool, 103, func(t *rapid.T) any { return ptr(rapid.Bool().Draw(t, "b")) }},
+		{"legacy_unregistered", ELegacyUnreg, 104, func(t *rapid.T) any { return ptr(int32(rapid.IntRange(1, 9).Draw(t, "i"))) }},
 	}},
+	{"google dynamicpb BaseEvent", "google", dynBase, []extDef{
+		{"dyn_bool", dynExts["dyn_bool"], 200, func(t *rapid.T) any { return rapid.Bool().Draw(t, "b") }},
+		{"dyn_int32", dynExts["dyn_int32"], 201, func(t *rapid.T) any { return int32(rapid.IntRange(-5, 5).Draw(t, "i")) }},
+		{"dyn_string", dynExts["dyn_string"], 202, func(t *rapid.T) any { return str(t) }},
+		{"dyn_bytes", dynExts["dyn_bytes"], 203, func(t *rapid.T) any { return []byte(str(t)) }},
+	}},
+}
+
+// dynBase is a dynamicpb message of the googlev2 BaseEvent descriptor (an extendable message whose Go type,
+// *dynamicpb.Message, is shared with every other dynamic message).
+func dynBase() any {
+	md := (&p2v2.BaseEvent{}).ProtoReflect().Descriptor()
+	d := dynamicpb.NewMessage(md)
+	d.Set(md.Fields().ByNumber(1), protoreflect.ValueOfString("id"))
+	d.Set(md.Fields().ByNumber(2), protoreflect.ValueOfString("src"))
+	d.Set(md.Fields().ByNumber(3), protoreflect.ValueOfUint64(1))
+	d.Set(md.Fields().ByNumber(4), protoreflect.ValueOfEnum(1))
+	return d
 }
 
 // the owning runtime's own API
@@ -212,16 +231,18 @@ func rtUnmarshal(h host, b []byte, m any) error {
 
 // msgDigest covers known fields, unknown bytes and every extension of the host.
 func msgDigest(h host, m any) string {
-	s := corpus.Digest(m)
+	// reading an extension may move it from the unknown fields to its decoded form (the runtimes decode
+	// lazily), so every extension is read first and the field digest is taken afterwards
+	ext := ""
 	for _, e := range h.exts {
 		has := rtHas(h, m, e)
-		s += fmt.Sprintf("|%s:%v", e.name, has)
+		ext += fmt.Sprintf("|%s:%v", e.name, has)
 		if has {
 			v, _ := rtGet(h, m, e)
-			s += "=" + dig(v)
+			ext += "=" + dig(v)
 		}
 	}
-	return s
+	return corpus.Digest(m) + ext
 }
 
 var errCallback = errors.New("range callback failed on purpose")
@@ -453,6 +474,9 @@ func (s *sim) opRoundTrip(t *rapid.T) {
 		if r, isR := n.(interface{ Reset() }); isR {
 			r.Reset()
 		}
+		if dm, isDyn := n.(*dynamicpb.Message); isDyn {
+			n = dynamicpb.NewMessage(dm.Descriptor())
+		}
 		if err = rtUnmarshal(s.h, b, n); err != nil {
 			return false
 		}
@@ -483,6 +507,27 @@ func (s *sim) opTypedNil(t *rapid.T) {
 	}()
 	s.w.Step("HasExtension(typed nil %T, %s) (result not judged)", nilMsg, e.name)
 	s.w.Fault("typed_nil_message")
+}
+
+// opOtherDynamic sends a dynamic message of a NON-extendable type through the extension helpers. All dynamic
+// messages share one Go type, so nothing learnt from this one may be applied to the others.
+func (s *sim) opOtherDynamic(t *rapid.T) {
+	md := (&p2v2.EmbeddedEvent{}).ProtoReflect().Descriptor()
+	d := dynamicpb.NewMessage(md)
+	d.Set(md.Fields().ByNumber(1), protoreflect.ValueOfInt32(7))
+	visited := 0
+	var err error
+	if s.guard("RangeExtensions/ClearAllExtensions(non-extendable dynamic message)", func() {
+		err = csproto.RangeExtensions(d, func(interface{}, string, int32) error { visited++; return nil })
+		csproto.ClearAllExtensions(d)
+	}) {
+		return
+	}
+	s.w.Step("a non-extendable dynamic message goes through RangeExtensions/ClearAllExtensions (visited %d, err=%v)", visited, err)
+	s.w.Fault("foreign_dynamic_message")
+	if visited != 0 || err != nil {
+		s.viol("range-on-non-extendable", "visited %d extensions, err=%v", visited, err)
+	}
 }
 
 func (s *sim) opMismatch(t *rapid.T) {
@@ -541,7 +586,7 @@ func runC12(t *rapid.T, w *rep.Worker) {
 	csproto.VerifResetTypeCaches() // every run starts with an empty process-wide type cache
 	t.Repeat(map[string]func(*rapid.T){
 		"set": s.opSet, "set2": s.opSet, "hasget": s.opHasGet, "hasget2": s.opHasGet, "clear": s.opClear, "clearall": s.opClearAll,
-		"range": s.opRange, "number": s.opNumber, "typednil": s.opTypedNil, "roundtrip": s.opRoundTrip, "mismatch": s.opMismatch,
+		"range": s.opRange, "number": s.opNumber, "typednil": s.opTypedNil, "otherdynamic": s.opOtherDynamic, "roundtrip": s.opRoundTrip, "mismatch": s.opMismatch,
 		"": func(t *rapid.T) {
 			w.State(fmt.Sprintf("%s|set=%d", h.runtime, len(s.model)))
 			if sig := w.Pending(); sig != "" {
